@@ -566,6 +566,11 @@ func cmdCheck(args []string) int {
 		}
 		g := groups[bg]
 		if g == nil {
+			if strings.Contains(bg, "#safe:") {
+				// the operations this safety group was about no longer exist: nothing can go wrong there
+				nDis++
+				continue
+			}
 			report(bg, nil, "no obligation is generated for this group any more (contract or code changed shape)")
 			continue
 		}
